@@ -35,7 +35,7 @@ func main() {
 		if len(keys) == 1 && keys[0] == "all" {
 			keys = nil
 			for k, c := range e.db.Funcs {
-				if c.Kind == "func" && !c.Flags["trusted"] && !c.Flags["noverify"] {
+				if (c.Kind == "func" || c.Kind == "lemma") && !c.Flags["trusted"] && !c.Flags["noverify"] {
 					keys = append(keys, k)
 				}
 			}
